@@ -112,7 +112,7 @@ def readerI (bufferNow : Bool) (nowChunks : List Bytes) : List ReaderStep → Re
 def refReader : List ReaderStep := [.defaultType, .ifBufferNow .listOfReaderCall, .returnContent]
 
 /-! ### `_iter_chunks` -/
-inductive CStep | seekIfGiven | read | whileChunk | yieldChunk | unknown
+inductive CStep | seekIfGiven | read | whileChunk | yieldChunk | whileTrue | breakIfEmpty | unknown
 deriving DecidableEq, Repr
 
 structure ChunksSrc where
@@ -127,14 +127,21 @@ structure CS where
   cur : Option Bytes := none
   out : List Bytes := []
   bad : Bool := false
+  broke : Bool := false      -- a `break` was executed in this round: the rest of the body is skipped and the loop ends
 
 def cRead (n : Nat) (s : CS) : CS :=
   let c := s.rem.take (readLimit n s.caps)
   { s with cur := some c, rem := s.rem.drop c.length, caps := s.caps.tail }
 
-def bodyStep (n : Nat) (s : CS) : CStep → CS
+def bodyStep (n : Nat) (s : CS) (st : CStep) : CS :=
+  if s.broke then s else
+  match st with
   | .yieldChunk => match s.cur with | some c => { s with out := s.out ++ [c] } | none => { s with bad := true }
   | .read => cRead n s
+  | .breakIfEmpty =>                      -- `if not chunk: break`
+    match s.cur with
+    | some c => if c.isEmpty then { s with broke := true } else s
+    | none => { s with bad := true }
   | _ => { s with bad := true }
 
 /-- `while chunk: body`, at most `fuel` rounds -/
@@ -145,10 +152,18 @@ def loopI (n : Nat) (body : List CStep) : Nat → CS → CS
     | none => { s with bad := true }
     | some c => if c.isEmpty then s else loopI n body f (body.foldl (bodyStep n) s)
 
+/-- `while True: body` (left by `break`), at most `fuel` rounds -/
+def loopTrueI (n : Nat) (body : List CStep) : Nat → CS → CS
+  | 0, s => s
+  | f + 1, s =>
+    let s' := body.foldl (bodyStep n) s
+    if s'.broke then s' else loopTrueI n body f s'
+
 def preStep (n fuel : Nat) (body : List CStep) (s : CS) : CStep → CS
   | .seekIfGiven => if s.cur.isSome then { s with bad := true } else s      -- the seek comes before any read
   | .read => cRead n s
   | .whileChunk => loopI n body fuel s
+  | .whileTrue => loopTrueI n body fuel s
   | _ => { s with bad := true }
 
 def chunksI (src : ChunksSrc) (n : Nat) (caps : List Nat) (rem : Bytes) : Option (List Bytes) :=
@@ -156,6 +171,8 @@ def chunksI (src : ChunksSrc) (n : Nat) (caps : List Nat) (rem : Bytes) : Option
   if s.bad then none else some s.out
 
 def refChunks : ChunksSrc := { pre := [.seekIfGiven, .read, .whileChunk], body := [.yieldChunk, .read] }
+/-- the same loop rotated: `while True: chunk = read(); if not chunk: break; yield chunk` -/
+def refChunksRotated : ChunksSrc := { pre := [.seekIfGiven, .whileTrue], body := [.read, .breakIfEmpty, .yieldChunk] }
 
 /-! ### `ContentType.__repr__` and `_quote` -/
 inductive Piece | key | quotedValue | rawValue | lit (t : Text) | type | subtype | params | unknown
